@@ -110,6 +110,24 @@ theorem ply_list_count_type_unimplemented (e : Endian) (ct it : SType) (hct : ¬
     readListBin e ct it bs = .error .err :=
   readListBin_badCount e ct it hct bs
 
+/-- THE ATTRIBUTE ENTRIES ARE THE STORED VALUES: for representable data (`Datum.Exact`: 32-bit ints, floats that survive
+their coding) and readers other than the 2-vector one (`s`,`t` with uchar: one ulp, finding 6), the row the located readers
+produce for a record consists of `Datum.val` of the components they claim — the function `meaning` builds its columns with -/
+theorem ply_spec_rows_are_values (c : Coding α) (bl : List (Built × List Nat)) (r : List (Datum α))
+    (hdim : ∀ p ∈ bl, p.1.names.length ≠ 2) (hex : ∀ d ∈ r, Datum.Exact c d) :
+    rowOf c bl r = bl.map (fun p => p.2.filterMap (fun i => (r[i]?).map (Datum.val c))) := by
+  simp only [rowOf]
+  apply List.map_congr_left
+  intro p hp
+  have hfun : (fun (i : Nat) => (r[i]?).map (datumRead c p.1.names.length)) = (fun (i : Nat) => (r[i]?).map (Datum.val c)) := by
+    funext i
+    cases hri : r[i]? with
+    | none => rfl
+    | some d =>
+      have hd : d ∈ r := List.mem_of_getElem? hri
+      simp only [Option.map_some, datumRead_eq_val c _ (hdim p hp) d (hex d hd)]
+  rw [hfun]
+
 /-! ### the result and `meaning` -/
 
 /-- the specification side: whenever `meaning` is defined for a file with a `texcoord`-free face element, it is a
@@ -171,9 +189,23 @@ example : readMesh toyCoding defaultReader (refEncode toyCoding exMesh)
       · exact (locatedNamedB_sound (specProps exMesh) _ _ (by decide)).loc
       · exact (locatedNamedB_sound (specProps exMesh) _ _ (by decide)).loc)
 
+example : rowOf toyCoding exBl [.f32 3, .u8 255, .f32 1, .f32 2]
+    = exBl.map (fun p => p.2.filterMap (fun i => ([Datum.f32 3, .u8 255, .f32 1, .f32 2][i]?).map (Datum.val toyCoding))) :=
+  ply_spec_rows_are_values toyCoding exBl _ (by decide)
+    (by
+      intro d hd
+      simp only [List.mem_cons, List.not_mem_nil, or_false] at hd
+      rcases hd with rfl | rfl | rfl | rfl <;> simp [Datum.Exact, toyCoding])
+
 /-- … and that mesh is what the file denotes (`meaning`) -/
 example : (readBody toyCoding defaultReader (specHdr exMesh) (specBody toyCoding exMesh)).toOption.map MeshVal.canon
     = (meaning toyCoding exMesh).map MeshVal.canon := by rfl
+
+/-- `meaning_mesh_indices` is not vacuous: `meaning exMesh` is defined -/
+example : ∃ m, meaning toyCoding exMesh = some m ∧ m.indices = [0, 1, 2, 3, 2, 1, 3, 1, 0] := by
+  cases h : meaning toyCoding exMesh with
+  | none => exact absurd h (by decide)
+  | some m => exact ⟨m, rfl, (meaning_mesh_indices toyCoding exMesh exMesh.exFaces rfl rfl m h).2⟩
 
 /-- the same file with a pentagon in second place is rejected -/
 def exPenta : SpecFile Nat :=
